@@ -225,6 +225,10 @@ class Model:
                                     cands.append(i)
                                 elif ld[repr(idk)][1] == rid[1]:
                                     raise Unspec("python-equal identity values of different type")
+                                elif str(ld[repr(idk)][1]).lower() == str(rid[1]).lower():
+                                    # '1' / 1, 'true' / true: whether text spelled like a number is that number's
+                                    # identity is not documented
+                                    raise Unspec("identity values equal as text, different as data")
                     if len(cands) > 1:
                         raise Unspec("several left records share the identity")
                     if cands:
